@@ -22,6 +22,8 @@ def ann(t):
     if isinstance(t, str):
         return t
     k = t[0]
+    if k == "tvar":
+        return t[1]
     if k == "tuple":
         return "(" + ", ".join(ann(x) for x in t[1]) + ")"
     if k == "array":
@@ -855,7 +857,7 @@ def emit(prog, before_main=None):
         for v, ts in variants:
             em.w("  | %s%s" % (v, ("(" + ", ".join(ann(t) for t in ts) + ")") if ts else ""))
     for f in prog["funcs"]:
-        ps = LSEP.join("%s: %s" % (n, ann(t)) for n, t in f["params"])
+        ps = LSEP.join("%s: %s" % (n, f.get("param_anns", {}).get(n) or ann(t)) for n, t in f["params"])
         em.w("fn %s(%s) -> %s {" % (f["name"], ps, ann(f["ret"])))
         em.ind += 1
         b = f["body"]
@@ -882,7 +884,7 @@ class Gen:
     def __init__(self, rng, cfg=None):
         self.r = rng
         self.cfg = dict(size=40, depth=4, jumps_in_operands=True, lambdas=True, structs=True, enums=True,
-                        errors=True, nested_lambdas=True, trymode=True, hosts=False)
+                        errors=True, nested_lambdas=True, trymode=True, hosts=False, generics=True)
         if cfg:
             self.cfg.update(cfg)
         self.structs = {}
@@ -898,6 +900,7 @@ class Gen:
         self.in_expr = 0
         self.features = set()
         self.hosts = []
+        self.generics = []
 
     def fresh(self, p="v"):
         self.nid += 1
@@ -1081,6 +1084,10 @@ class Gen:
             hs = [h for h in self.hosts if h["ret"] == ty]
             if hs:
                 return self.hcall(r.choice(hs), d)
+        if k >= 47 and k < 52 and self.generics and r.chance(50):
+            g = self.generic_call(ty, lambda t: self.expr(t, d - 1), lambda: self.rand_inst())
+            if g:
+                return g
         if k < 52:
             fs = [f for f in self.funcs if f["ret"] == ty and f.get("callable", True)]
             if fs:
@@ -1575,6 +1582,16 @@ class Gen:
         if k < 95 and self.cfg["errors"]:
             self.features.add("panic")
             return [("expr", ("if", VOID, self.expr(BOOL, d - 1), ("block", VOID, [("panic", ("lit", STR, r.choice(["boom", "p1", ""])))], None), None))]
+        if self.generics and r.chance(45):
+            want = self.rand_inst() if r.chance(60) else self.rand_type(1)
+            g = self.generic_call(want, lambda t: self.expr(t, d - 1), lambda: self.rand_inst(), any_ret=True)
+            if g:
+                self.features.add("generic-call-stmt")
+                if g[1] != VOID:
+                    n = self.fresh("x")
+                    self.declare(n, g[1], False)
+                    return [("let", n, g[1], g, False, False)]
+                return [("expr", g)]
         fs = [f for f in self.funcs if f.get("callable", True)]
         if fs:
             f = r.choice(fs)
@@ -1712,6 +1729,100 @@ class Gen:
         return [("for", pat, kind, itexpr, body)]
 
     # -- functions
+    # -- generic functions: parametric bodies, instantiated at the call sites -------------------
+    def rand_inst(self):
+        """a type to instantiate a type variable with (void included)"""
+        if self.r.chance(20):
+            return VOID
+        return self.rand_type(1)
+
+    def generic_call(self, ty, argf, freef, any_ret=False, avoid=None):
+        """call of a generic function whose result type unifies with ty (any_ret: bind the result's
+        type variables with freef() instead); argf(type) makes an argument"""
+        r = self.r
+        cands = []
+        for f in self.generics:
+            if f is avoid:
+                break   # a generic function only calls the ones declared before it: no recursion
+            b = {}
+            if any_ret or unify(f["ret"], ty, b):
+                cands.append((f, b))
+        if not cands:
+            return None
+        f, b = r.choice(cands)
+        for tv in f["tvars"]:
+            if tv not in b:
+                for _ in range(10):
+                    t = freef()
+                    if tv not in f["show"] or printable(t):
+                        break
+                else:
+                    t = INT
+                b[tv] = t
+        for tv in f["show"]:
+            if not printable(b[tv]):
+                return None
+        self.features.add("generic-call")
+        if any(t == VOID for t in b.values()):
+            self.features.add("generic-at-void")
+        return ("call", tsubst(f["ret"], b), f["name"], [argf(tsubst(t, b)) for _, t in f["params"]])
+
+    def gen_generic_func(self, idx):
+        r = self.r
+        T, U = ("tvar", "T"), ("tvar", "U")
+        two = r.chance(45)
+        show = {"T"} if r.chance(30) else set()
+        params = [(self.fresh("gx"), T)]
+        if two:
+            params.append((self.fresh("gy"), U))
+        extra = r.below(7)
+        if extra == 0:
+            params.append((self.fresh("ga"), ("array", T)))
+        elif extra == 1:
+            params.append((self.fresh("go"), ("option", T)))
+        elif extra == 2:
+            params.append((self.fresh("gt"), ("tuple", (T, INT))))
+        elif extra == 3 and self.cfg["lambdas"]:
+            params.append((self.fresh("gf"), ("fn", (INT,), T)))
+        params.append((self.fresh("gn"), INT))
+        r.shuffle(params)
+        if show:
+            # the constrained occurrence is the bare parameter, and it comes first
+            params.sort(key=lambda p: 0 if p[1] == T else 1)
+        rets = [T, T, ("tuple", (T, INT)), ("array", T), ("option", T), INT]
+        if two:
+            rets += [U, ("tuple", (U, T))]
+        if show:
+            rets += [STR, STR]
+        ret = r.choice(rets)
+        f = {"name": "gen%d" % idx, "params": params, "ret": ret, "tvars": ["T", "U"] if two else ["T"], "show": show, "callable": True}
+        # `T ToString` is written where T first occurs in the parameter list
+        anns, seen = {}, set()
+        for n, t in params:
+            a = ann(t)
+            for tv in sorted(show - seen):
+                if tvars_in(t) & {tv}:
+                    a = a.replace(tv, tv + " ToString", 1)
+                    seen.add(tv)
+            anns[n] = a
+        f["param_anns"] = anns
+        gb = GenericBody(self, f)
+        env = list(params)
+        stmts = []
+        for _ in range(r.range(0, 2)):
+            k = r.below(3)
+            if k == 0:
+                stmts.append(("print", gb.gint(1, env), False))
+            else:
+                tys = [t for _, t in params if t != INT and (t[0] != "fn")]
+                t = r.choice(tys)
+                n = self.fresh("gl")
+                stmts.append(("let", n, t, gb.gx(t, 2, env), False, False))
+                env.append((n, t))
+        f["body"] = ("block", ret, stmts, gb.gx(ret, 3, env))
+        self.features.add("generic-func")
+        self.generics.append(f)
+
     def gen_func(self, idx):
         r = self.r
         name = "fun%d" % idx
@@ -1764,6 +1875,9 @@ class Gen:
             self.declare(n, t, False)
         for i in range(r.range(0, 3)):
             self.gen_func(i)
+        if self.cfg["generics"] and r.chance(55):
+            for i in range(r.range(1, 3)):
+                self.gen_generic_func(i)
         self.fuel = self.cfg["size"]
         nst = r.range(3, 9)
         for _ in range(nst):
@@ -1780,8 +1894,204 @@ class Gen:
         else:
             main.append(self.print_stmt(2))
             self.final_ty = None
-        return {"structs": self.structs, "enums": self.enums, "funcs": self.funcs, "main": main,
+        return {"structs": self.structs, "enums": self.enums, "funcs": self.funcs + self.generics, "main": main,
                 "final_ty": self.final_ty, "features": sorted(self.features), "hosts": self.hosts}
+
+
+def tvars_in(t):
+    if isinstance(t, str):
+        return set()
+    if t[0] == "tvar":
+        return {t[1]}
+    out = set()
+    for x in t[1:]:
+        if isinstance(x, tuple) and x and not isinstance(x[0], tuple) and isinstance(x[0], str) and x[0] in ("tvar", "tuple", "array", "option", "result", "fn", "struct", "enum"):
+            out |= tvars_in(x)
+        elif isinstance(x, tuple):
+            for y in x:
+                out |= tvars_in(y)
+    return out
+
+
+def unify(pat, ty, b):
+    """match a type pattern (with type variables) against a concrete type, extending b"""
+    if isinstance(pat, tuple) and pat[0] == "tvar":
+        if pat[1] in b:
+            return b[pat[1]] == ty
+        b[pat[1]] = ty
+        return True
+    if isinstance(pat, str) or isinstance(ty, str):
+        return pat == ty
+    if pat[0] != ty[0]:
+        return False
+    k = pat[0]
+    if k == "tuple":
+        return len(pat[1]) == len(ty[1]) and all(unify(p, t, b) for p, t in zip(pat[1], ty[1]))
+    if k in ("array", "option"):
+        return unify(pat[1], ty[1], b)
+    if k == "fn":
+        return len(pat[1]) == len(ty[1]) and all(unify(p, t, b) for p, t in zip(pat[1], ty[1])) and unify(pat[2], ty[2], b)
+    return pat == ty
+
+
+def tsubst(pat, b):
+    if isinstance(pat, str):
+        return pat
+    k = pat[0]
+    if k == "tvar":
+        return b[pat[1]]
+    if k == "tuple":
+        return ("tuple", tuple(tsubst(x, b) for x in pat[1]))
+    if k in ("array", "option"):
+        return (k, tsubst(pat[1], b))
+    if k == "fn":
+        return ("fn", tuple(tsubst(x, b) for x in pat[1]), tsubst(pat[2], b))
+    return pat
+
+
+class GenericBody:
+    """expressions of a generic function's body: values of a type variable are only moved around
+    (variables, branches, blocks, lambdas and nested lambdas that capture them, arrays, options,
+    tuples, calls of other generic functions); ints are computed"""
+
+    def __init__(self, gen, f):
+        self.g = gen
+        self.r = gen.r
+        self.f = f
+
+    def vars_of(self, ty, env):
+        return [n for n, t in env if t == ty]
+
+    def gint(self, d, env):
+        r = self.r
+        vs = self.vars_of(INT, env)
+        arrs = [(n, t) for n, t in env if not isinstance(t, str) and t[0] == "array"]
+        k = r.below(10)
+        if k < 3 or not vs:
+            return ("lit", INT, r.range(0, 9))
+        if k < 6:
+            return ("var", INT, r.choice(vs))
+        if k < 8 and arrs:
+            n, t = r.choice(arrs)
+            return ("method", INT, ("var", t, n), "len", [])
+        return ("bin", INT, r.choice(["+", "-", "*"]), ("var", INT, r.choice(vs)), ("lit", INT, r.range(1, 3)))
+
+    def gbool(self, d, env):
+        return ("bin", BOOL, self.r.choice([">", "<", "=="]), self.gint(d, env), ("lit", INT, self.r.range(0, 4)))
+
+    def gx(self, ty, d, env):
+        r = self.r
+        g = self.g
+        if ty == INT:
+            return self.gint(d, env)
+        if ty == BOOL:
+            return self.gbool(d, env)
+        if ty == VOID:
+            return ("lit", VOID, None)
+        if ty == STR:
+            tv = ("tvar", sorted(self.f["show"])[0])
+            g.features.add("generic-tostring")
+            return ("bin", STR, "..", ("lit", STR, "<"), ("bin", STR, "..", self.gx(tv, d - 1, env), ("lit", STR, ">")))
+        k = ty[0]
+        vs = self.vars_of(ty, env)
+        if k == "tuple":
+            if vs and r.chance(40):
+                return ("var", ty, r.choice(vs))
+            return ("tuple", ty, [self.gx(t, d - 1, env) for t in ty[1]])
+        if k == "array":
+            if vs and r.chance(50):
+                return ("var", ty, r.choice(vs))
+            return ("array", ty, [self.gx(ty[1], d - 1, env) for _ in range(r.range(1, 3))])
+        if k == "option":
+            if vs and r.chance(50):
+                return ("var", ty, r.choice(vs))
+            n = g.fresh("t")
+            if r.chance(25):
+                v = ("variant", ty, "option", "none", [])
+            else:
+                v = ("variant", ty, "option", "some", [self.gx(ty[1], d - 1, env)])
+            return ("block", ty, [("let", n, ty, v, False, True)], ("var", ty, n))
+        if k == "fn":
+            if vs:
+                return ("var", ty, r.choice(vs))
+            ps = [(g.fresh("p"), t) for t in ty[1]]
+            return ("lam", ty, ps, self.gx(ty[2], d - 1, env + ps))
+        assert k == "tvar", ty
+        return self.gtv(ty, d, env)
+
+    def gtv(self, ty, d, env):
+        r = self.r
+        g = self.g
+        vs = self.vars_of(ty, env)
+        if d <= 0:
+            return ("var", ty, r.choice(vs))
+        k = r.below(100)
+        if k < 18:
+            return ("var", ty, r.choice(vs))
+        if k < 28:
+            return ("if", ty, self.gbool(d - 1, env), ("block", ty, [], self.gtv(ty, d - 1, env)), ("block", ty, [], self.gtv(ty, d - 1, env)))
+        if k < 38:
+            n = g.fresh("gl")
+            return ("block", ty, [("let", n, ty, self.gtv(ty, d - 1, env), False, False)], self.gtv(ty, d - 1, env + [(n, ty)]))
+        if k < 56 and g.cfg["lambdas"]:
+            # a lambda (its own type need not mention the type variable) captures generic values
+            n = g.fresh("gf")
+            if r.chance(50):
+                fty = ("fn", (), ty)
+                lam = ("lam", fty, [], self.lam_body(ty, d - 1, env))
+                g.features.add("generic-lambda0")
+                return ("block", ty, [("let", n, fty, lam, False, False)], ("calll", ty, ("var", fty, n), []))
+            kk = g.fresh("p")
+            fty = ("fn", (INT,), ty)
+            lam = ("lam", fty, [(kk, INT)], self.lam_body(ty, d - 1, env + [(kk, INT)]))
+            g.features.add("generic-lambda1")
+            return ("block", ty, [("let", n, fty, lam, False, False)], ("calll", ty, ("var", fty, n), [self.gint(d - 1, env)]))
+        if k < 64:
+            avs = [(n, t) for n, t in env if t == ("array", ty)]
+            if avs:
+                n, t = r.choice(avs)
+                arr = ("var", t, n)
+                kk = r.range(0, 2)
+                guard = ("bin", BOOL, ">", ("method", INT, arr, "len", []), ("lit", INT, kk))
+                g.features.add("generic-index")
+                return ("if", ty, guard, ("block", ty, [], ("index", ty, arr, ("lit", INT, kk))), ("block", ty, [], self.gtv(ty, d - 1, env)))
+        if k < 72:
+            ovs = [(n, t) for n, t in env if t == ("option", ty)]
+            if ovs:
+                n, t = r.choice(ovs)
+                z = g.fresh("gz")
+                g.features.add("generic-match-option")
+                return ("match", ty, ("var", t, n), [(("pvariant", "some", [("pbind", z)]), self.gtv(ty, d - 1, env + [(z, ty)])),
+                                                      (("pvariant", "none", []), self.gtv(ty, d - 1, env))])
+        if k < 80:
+            tvs = [(n, t) for n, t in env if t == ("tuple", (ty, INT))]
+            if tvs:
+                n, t = r.choice(tvs)
+                a, b = g.fresh("ga"), g.fresh("gb")
+                g.features.add("generic-destructure")
+                return ("block", ty, [("letpat", ("ptuple", [("pbind", a), ("pbind", b)]), ("var", t, n))], self.gtv(ty, d - 1, env + [(a, ty), (b, INT)]))
+        if k < 86:
+            fvs = [(n, t) for n, t in env if t == ("fn", (INT,), ty)]
+            if fvs:
+                n, t = r.choice(fvs)
+                g.features.add("generic-call-fn-param")
+                return ("calll", ty, ("var", t, n), [self.gint(d - 1, env)])
+        if k < 96:
+            # a generic function calls another one, at its own type variables, at int or at void
+            inside = [("tvar", v) for v in self.f["tvars"] if self.vars_of(("tvar", v), env)] + [INT, VOID]
+            c = g.generic_call(ty, lambda t: self.gx(t, d - 1, env), lambda: r.choice(inside), avoid=self.f)
+            if c:
+                g.features.add("generic-calls-generic")
+                return c
+        return ("var", ty, r.choice(vs))
+
+    def lam_body(self, ty, d, env):
+        r = self.r
+        if r.chance(35):
+            # a local of the type variable's type inside the lambda, then the result
+            n = self.g.fresh("gl")
+            return ("block", ty, [("let", n, ty, self.gtv(ty, d, env), False, False)], self.gtv(ty, d, env + [(n, ty)]))
+        return self.gtv(ty, d, env)
 
 
 def gen_program(rng, cfg=None):
